@@ -572,10 +572,77 @@ def backtracking_hazards(pattern, flags: int = 0) -> list[str]:
             elif getattr(C, "ATOMIC_GROUP", None) is op:
                 pass
     visit(list(tree))
+
+    # adjacent: a *lazy* unbounded repetition followed (only optional items between) by an unbounded repetition that can match the same
+    # character, followed by something that can fail: the lazy one tries the rest after every character it takes, and the rest scans the
+    # whole run before it fails - O(n**2) even when the match succeeds.  `(?:...|[^,])+?[ \t]*(?:,|\Z)` and `(.*?)(\2)\s*$` on a long run of
+    # blanks.  (Two greedy neighbours, `a*a*b`, are quadratic on failing input only and are not reported.)
+    def rep_set(op, av):
+        lo, hi, sub = av
+        fs, _n = _first_set(list(sub), is_bytes)
+        # every character the body can *contain* matters for overlap; the first set is what this analysis has - widen for bodies that are
+        # a single class or a branch of single items (the common case), which makes first set == contained set
+        return fs
+
+    def flat(items):
+        seq = []
+        for op, av in items:
+            if op is C.SUBPATTERN:
+                seq += flat(list(av[3]))
+            else:
+                seq.append((op, av))
+        return seq
+
+    def lazy_tails(op, av):
+        """lazy unbounded repetitions an item can end with (itself, the end of a group, the end of an alternative)"""
+        if op is C.MIN_REPEAT and av[1] is C.MAXREPEAT:
+            return [(op, av)]
+        if op is C.SUBPATTERN:
+            sub = flat(list(av[3]))
+            return lazy_tails(*sub[-1]) if sub else []
+        if op is C.BRANCH:
+            out_ = []
+            for alt in av[1]:
+                sub = flat(list(alt))
+                if sub:
+                    out_ += lazy_tails(*sub[-1])
+            return out_
+        return []
+
+    def scan(items):
+        for seq in [flat(items)]:
+            for i, (op0, av0) in enumerate(seq):
+              for op, av in lazy_tails(op0, av0):
+                j = i + 1
+                while j < len(seq) and not _unbounded(*seq[j]) and _first_item(*seq[j], is_bytes)[1]:
+                    j += 1
+                if j < len(seq) and _unbounded(*seq[j]) and rep_set(op, av) & rep_set(*seq[j]):
+                    rest = seq[j + 1:]
+                    if any(not _first_item(o, a, is_bytes)[1] or o is C.BRANCH or o is C.AT for o, a in rest):
+                        # no failure is possible behind a greedy repetition that stops exactly where the rest begins: `[^,]+(?:,|\Z)` - what the
+                        # repetition cannot take is what the rest accepts, and the rest accepts the end of the input
+                        nxt, _nul = _first_set(rest, is_bytes)
+                        ends = any(o is C.AT and a in (C.AT_END, C.AT_END_STRING) for o, a in rest) or any(
+                            o is C.BRANCH and any(len(alt) == 1 and alt[0][0] is C.AT and alt[0][1] in (C.AT_END, C.AT_END_STRING) for alt in a[1]) for o, a in rest)
+                        greedy2 = seq[j][0] is C.MAX_REPEAT
+                        if greedy2 and ends and (set(_UNI) - rep_set(*seq[j])) <= nxt:
+                            continue
+                        out.append("adjacent")
+        for op, av in items:
+            if op in (C.MAX_REPEAT, C.MIN_REPEAT):
+                scan(list(av[2]))
+            elif op is C.SUBPATTERN:
+                scan(list(av[3]))
+            elif op is C.BRANCH:
+                for alt in av[1]:
+                    scan(list(alt))
+    scan(list(tree))
     return out
 
 
 def _hazard_selfcheck() -> bool:
     bad = [r"(?:[a-z]+|%[0-9a-f]{2})+", r"(a*)*", r"(\w+\s?)+$", rb"(?:[a-z0-9.-]+|%[0-9A-F]{2})+"]
     good = [r"(?:[a-z]|%[0-9a-f]{2})+", r"[a-z]+(?:\.[a-z]+)*", r"(?:%[0-9a-f]+)+", r"\s*,\s*", r"(?:a+b)+", r"[^\r\n]*", r"(?>a+)+" if hasattr(__import__("re._constants", fromlist=["x"]), "ATOMIC_GROUP") else r"a+"]
+    bad += [r"(?:x|[^,])+?[ \t]*(?:,|\Z)", r"=(.*?)\s*$"]
+    good += [r"(?:x|[^,])+(?:,|\Z)", r"[ \t]*(?:a|b)[ \t]*,", r"\d+\.\d+", r"[a-z]*[0-9]*x", r"=\s*(.*?)$", r"[ \t]*(?:x|[^,])+(?:,|\Z)"]
     return all(backtracking_hazards(p) for p in bad) and not any(backtracking_hazards(p) for p in good)
